@@ -185,7 +185,7 @@ class Run(object):
             sel = ops[ch % len(ops)]
             self.step(self.concrete(sel, ch))
             steps += 1
-            if f["eager_poll"] and sel[0] != "poll":
+            if f["eager_poll"] and sel[0] != "poll" and not self.at_rest() and not (stop and stop(self)):
                 self.step({"op": "poll"})
                 steps += 1
         if f["finish"]:
